@@ -23,6 +23,12 @@ def budget(n):
     return 2000 + 400 * n
 
 
+def call_budget(n):
+    """Python function calls anywhere in the process during one decoder call (work done for the decoder outside yabgp's
+    own lines); measured maximum on the unchanged tree is below 4 per octet"""
+    return 3000 + 60 * n
+
+
 def in_range(body):
     if len(body) < 4:
         return False
@@ -43,13 +49,16 @@ class Runner(object):
         self.update_results = 0
         self.seen = {}
         self.exhaustive = 0
+        self.max_calls_per_octet = 0.0
 
     def call(self, name, f, data, exhaustive=False):
         if exhaustive:
             self.exhaustive += 1
         else:
             self.seen.setdefault(name, set()).add(hash(data))
-        res, val, lines = METER.run(f, data, budget=budget(len(data)))
+        res, val, lines = METER.run(f, data, budget=budget(len(data)), call_budget=call_budget(len(data)))
+        if METER.calls / (len(data) + 50.0) > self.max_calls_per_octet:
+            self.max_calls_per_octet = METER.calls / (len(data) + 50.0)
         self.calls[name] = self.calls.get(name, 0) + 1
         self.outcomes[res] += 1
         if lines > self.max_lines.get(name, 0):
@@ -60,7 +69,7 @@ class Runner(object):
         if res == 'budget':
             self.V.setdefault(('decoder-budget', base), dict(
                 kind='decoder-budget', features=['decoder:' + base],
-                detail='%s did not finish within %d lines on %d octets: %s' % (name, budget(len(data)), len(data), data[:64].hex()),
+                detail='%s did not finish within %d lines / %d calls on %d octets (%s): %s' % (name, budget(len(data)), call_budget(len(data)), len(data), str(val)[:80], data[:64].hex()),
                 replay=dict(decoder=name, data=data.hex())))
         elif base == 'update.Update.parse':
             if res == 'raised' and in_range(data):
@@ -100,6 +109,27 @@ def tlv_inputs(full):
                 body = (fill * 17)[:n]
                 yield 'ps', struct.pack('!BH', t, n) + body
                 yield 'ps', struct.pack('!BH', t, n + 1) + body
+
+
+def nested_inputs():
+    """a TLV type nested inside itself as deep as 1 KB / 4 KB allow, around a well-formed and a malformed core:
+    decoders that recurse into their value (or re-scan it) show their cost here"""
+    ls, ps = tlv_types()
+    for t in ls:
+        for lead in (0, 4, 8):
+            for core in (struct.pack('!HH', t, 0), struct.pack('!HH', t, 200) + b'\x01'):
+                for limit in (1000, 4000):
+                    d = core
+                    while len(d) + 4 + lead <= limit:
+                        d = struct.pack('!HH', t, lead + len(d)) + b'\x00' * lead + d
+                    yield 'ls', d
+    for t in ps:
+        for lead in (0, 1, 3, 6):
+            for core in (struct.pack('!BH', t, 0), struct.pack('!BH', t, 200) + b'\x01'):
+                d = core
+                while len(d) + 3 + lead <= 4000:
+                    d = struct.pack('!BH', t, lead + len(d)) + b'\x00' * lead + d
+                yield 'ps', d
 
 
 def wrap_update(attr_type, flags, value):
@@ -174,7 +204,8 @@ def run_shard(sh):
         from yabgp.message.attribute.linkstate.linkstate import LinkState
         from yabgp.message.attribute.sr.bgpprefixsid import BGPPrefixSID
         n = 0
-        for target, d in tlv_inputs(full):
+        import itertools
+        for target, d in itertools.chain(tlv_inputs(full), nested_inputs()):
             n += 1
             if target == 'ls':
                 for pid in (None, 1, 2, 3):
@@ -216,7 +247,8 @@ def run_shard(sh):
                            calls=sum(R.calls.values()), returned=R.outcomes['ok'], raised=R.outcomes['raised'],
                            over_budget=R.outcomes['budget'], update_parse_results=R.update_results)
     res['maxima'] = dict(max_lines_any_decoder=max(R.max_lines.values()) if R.max_lines else 0,
-                         max_lines_per_octet=round(max(R.max_per_octet.values()), 2) if R.max_per_octet else 0)
+                         max_lines_per_octet=round(max(R.max_per_octet.values()), 2) if R.max_per_octet else 0,
+                         max_calls_per_octet_plus_50=round(R.max_calls_per_octet, 2))
     res['sets']['decoders_called'] = sorted(R.calls)
     res['sets']['calls_per_decoder'] = ['%s=%d' % kv for kv in sorted(R.calls.items())]
     res['violations'] = list(R.V.values())
